@@ -1,7 +1,7 @@
 (* C19: case type, correspondence with the model, and the property evaluated on what the
    implementation did (the observed label trace), with the soundness lemmas of the checker. *)
 From Coq Require Import Lia.
-From VT Require Export Base.PyVal Simple.SimpleClient.
+From VT Require Export Base.PyVal Simple.SimpleClient Simple.SimpleTransport.
 Local Open Scope nat_scope.
 
 Inductive status := SDone | SReady | SNotified | SBlocked (timeout : bool).
@@ -92,7 +92,11 @@ Definition flag (g : gh) (bit : nat) : gh :=
        (if Nat.eqb (Nat.land (g_bits g) bit) 0 then g_bits g + bit else g_bits g).
 (* completed hand-offs (appended by a handler invocation that has returned) not yet returned *)
 Definition unconsumed (g : gh) : nat := g_app g - List.length (g_pend g) - g_ret g.
-Definition on_label (ch : nat) (g : gh) (x : lbl) : gh :=
+(* `recv`: the call of the application in progress is a receive().  The drain condition of clause 64
+   is receive()'s ("DisconnectedError once ... the events received before that have been returned");
+   emit() / call() raise DisconnectedError once the connection has ended for good (clause 32),
+   whatever is buffered. *)
+Definition on_label (recv : bool) (ch : nat) (g : gh) (x : lbl) : gh :=
   match x with
   | LAppend _ => mkGh (S (g_app g)) (g_ret g) (ch :: g_pend g) (g_final g) (g_wait g) (g_bits g)
   | LDone => mkGh (g_app g) (g_ret g) (remove_all ch (g_pend g)) (g_final g) (g_wait g) (g_bits g)
@@ -104,27 +108,43 @@ Definition on_label (ch : nat) (g : gh) (x : lbl) : gh :=
       if 0 <? unconsumed g then flag g (match g_wait g with IE => 8 | CE => 16 end) else g
   | LRaise DisconnectedError =>
       let g1 := if g_final g then g else flag g 32 in
-      if 0 <? unconsumed g1 then flag g1 64 else g1
+      if recv && (0 <? unconsumed g1) then flag g1 64 else g1
   | LRaise _ => flag g 256
   | _ => g
   end.
-Fixpoint walk (sched : list nat) (tr : list (list lbl)) (g : gh) : gh :=
+Definition call_over (x : lbl) : bool := match x with LRet _ | LRaise _ | LSent => true | _ => false end.
+Definition in_recv (C : list cop) : bool := match C with Recv _ :: _ => true | _ => false end.
+(* the labels of one step; C = the calls of the application not yet finished *)
+Fixpoint wlabels (ch : nat) (l : list lbl) (g : gh) (C : list cop) : gh * list cop :=
+  match l with
+  | [] => (g, C)
+  | x :: r => wlabels ch r (on_label (in_recv C) ch g x) (if call_over x then tl C else C)
+  end.
+Fixpoint walk (sched : list nat) (tr : list (list lbl)) (g : gh) (C : list cop) : gh * list cop :=
   match sched, tr with
-  | ch :: s, l :: t => walk s t (fold_left (on_label ch) l g)
-  | _, _ => g
+  | ch :: s, l :: t => let '(g', C') := wlabels ch l g C in walk s t g' C'
+  | _, _ => (g, C)
   end.
 Definition g0 := mkGh 0 0 [] false CE 0.
 
-(* an event is held back: the call is blocked for ever in a wait without timeout, every
-   producer has finished, and a completely handed-off event is in the buffer *)
-Definition chk_held (g : gh) (stat : status) (pdone : bool) : bool :=
-  negb (status_eqb stat (SBlocked false) && pdone && (0 <? unconsumed g)).
+(* an event is held back: a receive() is blocked for ever in a wait without timeout, every
+   producer has finished, and a completely handed-off event is in the buffer (`recv`: the pending
+   call is a receive(); an emit() waiting out an outage holds nothing back) *)
+Definition chk_held (g : gh) (stat : status) (pdone recv : bool) : bool :=
+  negb (recv && status_eqb stat (SBlocked false) && pdone && (0 <? unconsumed g)).
+
+(* One shape of a held-back event has its own bit (4096, signature
+   held-back-in-connected-wait-during-outage; notes/C19.md section 9): an untimed receive() blocked in
+   connected_event.wait() - not in input_event.wait() - while the connection is down (flag clear) and no
+   final disconnect has been seen, thread granularity.  Every other held-back shape is bit 512. *)
+Definition held_in_outage (atomic : bool) (g : gh) (tr : list (list lbl)) (fcev : bool) : bool :=
+  negb atomic && evt_eqb (g_wait g) CE && negb fcev && negb (final_seen (List.concat tr)).
 
 (* bits: 4 fifo, 8 TimeoutError from the input wait while a completed hand-off is unconsumed,
    16 the same from the connected wait, 32 DisconnectedError before any final disconnect,
    64 DisconnectedError while a completed hand-off is unconsumed, 128 blocked for ever after
    the final disconnect, 256 any other exception, 512 blocked for ever while a completely
-   handed-off event is buffered *)
+   handed-off event is buffered (4096: the one shape described above) *)
 (* Clauses 16 and 64 speak about "events received before the connection ended": they are
    evaluated on scenarios in which the handlers are invoked the way the Client does on one
    namespace (one producer, `lifecycle`); the other clauses on every scenario. *)
@@ -136,10 +156,11 @@ Definition domain_mask (P : list (list hop)) (bits : nat) : nat :=
 Definition prop_bits (k : c19case) : nat :=
   match k with
   | Case fixed recheck atomic P C sched tr stat pdone fbuf fiev fcev fconn fnsup =>
-      let g := walk sched tr g0 in
+      let '(g, Crest) := walk sched tr g0 C in
       domain_mask P (g_bits g) + (if chk_fifo tr fbuf then 0 else 4) +
       (if chk_hang tr stat pdone fconn then 0 else 128) +
-      (if chk_held g stat pdone then 0 else 512)
+      (if chk_held g stat pdone (in_recv Crest) then 0
+       else if held_in_outage atomic g tr fcev then 4096 else 512)
   end.
 
 (* 0 = fine; bit 1 = model and implementation disagree; bit 2 = the implementation's own
@@ -172,3 +193,103 @@ Qed.
 
 Lemma flag_bits_mono g b : g_bits g <= g_bits (flag g b).
 Proof. unfold flag; simpl. destruct (Nat.eqb _ 0); lia. Qed.
+
+(* ===================================================================================== *)
+(* Transport-level cases: SimpleClient / AsyncSimpleClient over the REAL Client /          *)
+(* AsyncClient over a fake engine.io transport (drivers/sched_simple_eio.py).  The producer *)
+(* script is a history of what the server / transport does; the model runs on `dispatch` of *)
+(* it (Simple/SimpleTransport.v).                                                          *)
+(* ===================================================================================== *)
+Inductive c19tcase :=
+| TCase (fixed recheck atomic : bool)
+        (reconn : bool) (att : nat)       (* Client(reconnection=, reconnection_attempts=) *)
+        (T : list top) (C : list cop) (sched : list nat)
+        (tr : list (list lbl)) (stat : status) (pdone : bool)
+        (fbuf : list pv) (fiev fcev fconn fnsup : bool).
+
+Definition tev (name : string) (n : Z) : top := TEvent (PStr (s2l name)) [PInt n].
+
+(* correspondence: the model run on `dispatch T`, on the schedule of the tie (at asyncio
+   granularity a producer choice is one whole transport event) *)
+Definition tagree (k : c19tcase) : bool :=
+  match k with
+  | TCase fixed recheck atomic reconn att T C sched tr stat pdone fbuf fiev fcev fconn fnsup =>
+      let v := mkVariant fixed recheck in
+      let tp := mkTP reconn att in
+      let gs := tgroups atomic tp T sched in
+      let c := grun v atomic (tinit tp T C) gs in
+      list_eqb (list_eqb lbl_eqb) (gtrace v atomic (tinit tp T C) gs) tr &&
+      status_eqb (status_of c) stat && Bool.eqb (prods_done c) pdone &&
+      list_eqb pv_eqb (buf (sh c)) fbuf &&
+      Bool.eqb (iev (sh c)) fiev && Bool.eqb (cev (sh c)) fcev &&
+      Bool.eqb (conn (sh c)) fconn && Bool.eqb (nsup (sh c)) fnsup
+  end.
+
+Fixpoint prefix_eqb (a b : list pv) : bool :=
+  match a, b with
+  | [], _ => true
+  | x :: a', y :: b' => pv_eqb x y && prefix_eqb a' b'
+  | _ :: _, [] => false
+  end.
+
+(* what receive() returned, followed by what is still buffered, is what the SERVER sent (each
+   event once, in order, nothing else): a prefix of it while the Client is still processing the
+   history, all of it once it has processed everything *)
+Definition chk_sent (tp : tparams) (T : list top) (tr : list (list lbl)) (fbuf : list pv) (pdone : bool) : bool :=
+  let got := rets (List.concat tr) ++ fbuf in
+  if pdone then list_eqb pv_eqb got (server_sent tp T) else prefix_eqb got (server_sent tp T).
+
+(* the lifecycle notifications of the underlying Client are never received as events *)
+Definition lifecycle_names : list str :=
+  map s2l ["connect"; "connect_error"; "disconnect"; "__disconnect_final"]%string.
+Definition is_lifecycle_item (x : pv) : bool :=
+  match x with PList (PStr s :: _) => existsb (str_eqb s) lifecycle_names | _ => false end.
+Definition chk_no_lifecycle (tp : tparams) (T : list top) (tr : list (list lbl)) (fbuf : list pv) : bool :=
+  forallb (fun x => negb (is_lifecycle_item x) || existsb (pv_eqb x) (server_sent tp T))
+          (rets (List.concat tr) ++ fbuf).
+
+(* bits of prop_bits (every dispatched script is inside `lifecycle`, so all clauses apply), plus
+   1024 received ++ buffered differs from what the server sent, 2048 a lifecycle notification of
+   the underlying client was received as an event *)
+Definition tprop_bits (k : c19tcase) : nat :=
+  match k with
+  | TCase fixed recheck atomic reconn att T C sched tr stat pdone fbuf fiev fcev fconn fnsup =>
+      let tp := mkTP reconn att in
+      prop_bits (Case fixed recheck atomic [dispatch tp T] C sched tr stat pdone fbuf fiev fcev fconn fnsup) +
+      (if chk_sent tp T tr fbuf pdone then 0 else 1024) +
+      (if chk_no_lifecycle tp T tr fbuf then 0 else 2048)
+  end.
+
+Definition c19t_eval (k : c19tcase) : nat :=
+  (if tagree k then 0 else 1) + (match tprop_bits k with 0 => 0 | b => 2 + b end).
+
+Definition c19t_explain (k : c19tcase) :=
+  match k with
+  | TCase fixed recheck atomic reconn att T C sched tr stat pdone fbuf fiev fcev fconn fnsup =>
+      let v := mkVariant fixed recheck in
+      let tp := mkTP reconn att in
+      let gs := tgroups atomic tp T sched in
+      let c := grun v atomic (tinit tp T C) gs in
+      (dispatch tp T, server_sent tp T, gtrace v atomic (tinit tp T C) gs, status_of c, prods_done c, sh c,
+       tprop_bits k)
+  end.
+
+Lemma prefix_eqb_sound a : forall b, prefix_eqb a b = true -> exists rest, a ++ rest = b.
+Proof.
+  induction a as [|x a IH]; intros b H; [exists b; reflexivity|].
+  destruct b as [|y b]; [discriminate|]. simpl in H. apply andb_true_iff in H as [H1 H2].
+  apply pv_eqb_eq in H1. subst y. destruct (IH b H2) as [rest Hr]. exists rest. simpl. rewrite Hr. reflexivity.
+Qed.
+
+(* reading of clause 1024, the observable half of `transport_fifo` *)
+Lemma chk_sent_sound tp T tr fbuf pdone : chk_sent tp T tr fbuf pdone = true ->
+  exists rest, rets (List.concat tr) ++ fbuf ++ rest = server_sent tp T /\ (pdone = true -> rest = []).
+Proof.
+  unfold chk_sent. destruct pdone; intro H.
+  - exists []. rewrite app_nil_r. split; [|reflexivity]. apply (list_eqb_eq pv_eqb pv_eqb_eq). exact H.
+  - apply prefix_eqb_sound in H as [rest Hr]. exists rest. rewrite app_assoc. split; [exact Hr|discriminate].
+Qed.
+
+(* every transport case is inside the domain of clauses 16 and 64 *)
+Lemma transport_in_domain tp T : in_domain [dispatch tp T] = true.
+Proof. apply dispatch_lifecycle. Qed.
